@@ -55,6 +55,9 @@ const (
 )
 
 func (h *Handler) serveQueryLogByCursor(w http.ResponseWriter, r *http.Request, user meta2.User) {
+	if !h.requireRepositoryDataRead(w, user, mux.Vars(r)[Repository], "query log by cursor") {
+		return
+	}
 }
 
 func (h *Handler) getRequestInfo(r *http.Request) (*consume.ConsumeInfo, error) {
@@ -182,6 +185,9 @@ func (h *Handler) serveConsumeLogs(w http.ResponseWriter, r *http.Request, user 
 	t := time.Now()
 	repository := mux.Vars(r)[Repository]
 	logStream := mux.Vars(r)[LogStream]
+	if !h.requireRepositoryDataRead(w, user, repository, "consume logs") {
+		return
+	}
 	consumeInfo, filterOpt, err := h.getConsumeInfo(w, r, user, t, &measurementInfo{database: repository, name: logStream, retentionPolicy: logStream})
 	if err != nil {
 		h.Logger.Error("query log scan request error! ", zap.Error(err), zap.Any("r", r))
@@ -513,6 +519,9 @@ func (h *Handler) updateCursorTask(task *consume.ConsumeSegmentTask, consumeInfo
 }
 
 func (h *Handler) serveConsumeCursorTime(w http.ResponseWriter, r *http.Request, user meta2.User) {
+	if !h.requireRepositoryDataRead(w, user, mux.Vars(r)[Repository], "consume cursor time") {
+		return
+	}
 	params := strings.Split(r.URL.RawQuery, "&")
 	var cursorString string
 	for _, param := range params {
@@ -679,6 +688,9 @@ func (h *Handler) updateCursorByShard(cursor *consume.ConsumeCursor, repository 
 func (h *Handler) serveGetConsumeCursors(w http.ResponseWriter, r *http.Request, user meta2.User) {
 	repository := mux.Vars(r)[Repository]
 	logStream := mux.Vars(r)[LogStream]
+	if !h.requireRepositoryDataRead(w, user, repository, "consume cursors") {
+		return
+	}
 	if err := h.ValidateAndCheckLogStreamExists(repository, logStream); err != nil {
 		h.Logger.Error("query log scan request error! ", zap.Error(err), zap.Any("r", r))
 		h.httpErrorRsp(w, ErrorResponse(err.Error(), LogReqErr), http.StatusBadRequest)
@@ -1003,9 +1015,17 @@ func getQueryLogContextRequest(r *http.Request) (*QueryLogRequest, error) {
 	return queryLogRequest, nil
 }
 
-func (h *Handler) serveGetCursor(w http.ResponseWriter, r *http.Request, user meta2.User) {}
+func (h *Handler) serveGetCursor(w http.ResponseWriter, r *http.Request, user meta2.User) {
+	if !h.requireRepositoryDataRead(w, user, mux.Vars(r)[Repository], "get cursor") {
+		return
+	}
+}
 
-func (h *Handler) servePullLog(w http.ResponseWriter, r *http.Request, user meta2.User) {}
+func (h *Handler) servePullLog(w http.ResponseWriter, r *http.Request, user meta2.User) {
+	if !h.requireRepositoryDataRead(w, user, mux.Vars(r)[Repository], "pull log") {
+		return
+	}
+}
 
 func getQueryConsumeCursorsRequest(r *http.Request) (*consume.ConsumeCursorsRequest, error) {
 	var err error
